@@ -59,7 +59,8 @@ def estimate_minor(
         def filter_fn(cov, mut):
             # TODO: is this necessary?
             r = gene.region_at(mut.pos)
-            if mut.op != "_" and not (
+            # "-" marks a base removed by a deletion: it is part of the locus depth, not a variant
+            if mut.op not in ("_", "-") and not (
                 mut in mutations
                 or (r and r[1][0] == "e")
                 or (r and r[1] in ["utr3", "utr5", "up"])
